@@ -153,6 +153,10 @@ type DynBuf interface {
 	ChanSet(c, i int, v uint64)
 	ChanIndex(c, i int) int
 	ChanShape(c int) (int, int, int)
+	KeptChanSample(c, i int) uint64
+	KeptChanSet(c, i int, v uint64)
+	KeptChanIndex(c, i int) int
+	KeptChanShape(c int) (int, int, int)
 	Ptr() any
 	HeaderPtr() uintptr
 	ElemSize() int
@@ -163,6 +167,7 @@ type B[T signal.SignalTypes] struct {
 	b     *signal.Buffer[T]
 	k     Kind
 	named bool
+	chans map[int]signal.C[T] // channel views kept since their first use (see chanView)
 }
 
 func (x *B[T]) Kind() Kind                { return x.k }
@@ -176,7 +181,7 @@ func (x *B[T]) BitDepth() int             { return int(x.b.BitDepth()) }
 func (x *B[T]) Sample(i int) uint64       { return enc(x.b.Sample(i), x.k) }
 func (x *B[T]) SetSample(i int, v uint64) { x.b.SetSample(i, dec[T](v, x.k)) }
 func (x *B[T]) AppendSample(v uint64)     { x.b.AppendSample(dec[T](v, x.k)) }
-func (x *B[T]) Slice(s, e int) DynBuf     { return &B[T]{x.b.Slice(s, e), x.k, x.named} }
+func (x *B[T]) Slice(s, e int) DynBuf     { return &B[T]{b: x.b.Slice(s, e), k: x.k, named: x.named} }
 func (x *B[T]) Append(src DynBuf)         { x.b.Append(src.(*B[T]).b) }
 func (x *B[T]) Ptr() any                  { return x.b }
 func (x *B[T]) HeaderPtr() uintptr        { return uintptr(unsafe.Pointer(x.b)) }
@@ -197,17 +202,38 @@ func (x *B[T]) ChanShape(c int) (int, int, int) {
 	return ch.Channels(), ch.Length(), ch.Capacity()
 }
 
+// chanView returns the channel view of channel c taken at its FIRST use on this header and kept since:
+// later operations on the parent (appends) must be visible through a view taken earlier.
+func (x *B[T]) chanView(c int) signal.C[T] {
+	if v, ok := x.chans[c]; ok {
+		return v
+	}
+	if x.chans == nil {
+		x.chans = map[int]signal.C[T]{}
+	}
+	v := x.b.Channel(c)
+	x.chans[c] = v
+	return v
+}
+func (x *B[T]) KeptChanSample(c, i int) uint64 { return enc(x.chanView(c).Sample(i), x.k) }
+func (x *B[T]) KeptChanSet(c, i int, v uint64) { x.chanView(c).SetSample(i, dec[T](v, x.k)) }
+func (x *B[T]) KeptChanIndex(c, i int) int     { return x.chanView(c).BufferIndex(c, i) }
+func (x *B[T]) KeptChanShape(c int) (int, int, int) {
+	ch := x.chanView(c)
+	return ch.Channels(), ch.Length(), ch.Capacity()
+}
+
 // SliceSink calls Slice without the harness wrapper; the result escapes into a package-level sink.
 func (x *B[T]) SliceSink(s, e int) { sinkAny = x.b.Slice(s, e) }
 
 var sinkAny any
 
 func wrapBuf[T signal.SignalTypes](b *signal.Buffer[T], k Kind, named bool) DynBuf {
-	return &B[T]{b, k, named}
+	return &B[T]{b: b, k: k, named: named}
 }
 
 func allocT[T signal.SignalTypes](a signal.Allocator, k Kind, named bool) DynBuf {
-	return &B[T]{signal.Alloc[T](a), k, named}
+	return &B[T]{b: signal.Alloc[T](a), k: k, named: named}
 }
 
 // Alloc allocates a buffer of the given kind (named: the defined type over that kind).
@@ -286,7 +312,7 @@ type P[T signal.SignalTypes] struct {
 	k Kind
 }
 
-func (x *P[T]) Get() DynBuf  { return &B[T]{x.p.Get(), x.k, false} }
+func (x *P[T]) Get() DynBuf  { return &B[T]{b: x.p.Get(), k: x.k} }
 func (x *P[T]) Put(b DynBuf) { x.p.Put(b.(*B[T]).b) }
 func (x *P[T]) Kind() Kind   { return x.k }
 
